@@ -85,8 +85,8 @@ func RealMs() int64 { return realMs.Load() }
 func OnHang(f func(label, stacks string)) { wdFire.Store(f) }
 
 // Arm starts the watchdog for a potentially unbounded wait; Disarm stops it.
-func Arm(label string) { wdSince.Store(RealMs()); wdLabel.Store(label) }
-func Disarm()          { wdLabel.Store("") }
+func Arm(label string)      { wdSince.Store(RealMs()); wdLabel.Store(label) }
+func Disarm()               { wdLabel.Store("") }
 func SetHangLimit(ms int64) { wdLimitMs.Store(ms) }
 
 // ---- bubble ------------------------------------------------------------------------
@@ -327,7 +327,9 @@ type Store struct {
 	Calls  atomic.Int64
 }
 
-func NewStore(name string, g *Gate) *Store { return &Store{inner: ds.NewMapDatastore(), Gate: g, Name: name} }
+func NewStore(name string, g *Gate) *Store {
+	return &Store{inner: ds.NewMapDatastore(), Gate: g, Name: name}
+}
 
 func (s *Store) pre(ctx context.Context, kind, key string) error {
 	s.Calls.Add(1)
@@ -590,10 +592,11 @@ func (tr *Trace) Ctor(ok bool)               { tr.add(Ev{Kind: "TCtor", Ok: ok})
 func (tr *Trace) CtorPanic(why string)       { tr.add(Ev{Kind: "TCtorPanic", Note: why}) }
 func (tr *Trace) OpBegin(i int, what string) { tr.add(Ev{Kind: "TOpBegin", T: i, Note: what}) }
 func (tr *Trace) OpEnd(i int, res string)    { tr.add(Ev{Kind: "TOpEnd", T: i, Res: res}) }
+
 // CloseCall records that Close is being called by thread t; live (what the instance has
 // running at that instant) is kept in the JSON description only.
 func (tr *Trace) CloseCall(t int, live []G) { tr.add(Ev{Kind: "TCloseCall", T: t, Live: live}) }
-func (tr *Trace) CloseRet(t int, live []G)   { tr.add(Ev{Kind: "TCloseRet", T: t, Live: live}) }
+func (tr *Trace) CloseRet(t int, live []G)  { tr.add(Ev{Kind: "TCloseRet", T: t, Live: live}) }
 func (tr *Trace) ClosePanic(t int, why string) {
 	tr.add(Ev{Kind: "TClosePanic", T: t, Note: why})
 }
@@ -695,6 +698,9 @@ type closer struct {
 	panicked          string
 }
 
+// PostBase is the index of the first operation started on the closed instance (Run_C14.v: agrees).
+const PostBase = 1000
+
 // Plan describes one case: operations, the instant of Close, how the second
 // Close is made, how parked calls are released.
 type Plan struct {
@@ -702,6 +708,10 @@ type Plan struct {
 	PostOps []*Op // started one after the other once both Close calls have returned
 	Close   func() error
 	CloseAt int // step at which the first Close is started; <0: once every operation has returned
+	// CloseOp1 > 0: Close is started CloseDelay steps after operation number CloseOp1-1 was started
+	// (overrides CloseAt), so that it falls into the time that operation is in flight
+	CloseOp1   int
+	CloseDelay int
 	// Second Close: false = after the first has returned; true = one step after the
 	// first was started, whether or not it has returned ("concurrent after first").
 	Concurrent2 bool
@@ -712,7 +722,7 @@ type Plan struct {
 	MaxSteps    int
 	Idle        time.Duration // virtual time to let pass when nothing is parked
 	MaxIdle     int
-	Final       func() // release the environment (peerstore, ...) before the bubble ends
+	Final       func()        // release the environment (peerstore, ...) before the bubble ends
 	Tail        time.Duration // virtual time granted at the end for goroutines that exit on their own timeout
 
 	Steps       int
@@ -840,6 +850,10 @@ func (p *Plan) Run(tr *Trace) {
 	if p.MaxIdle == 0 {
 		p.MaxIdle = 40
 	}
+	if p.CloseOp1 > 0 && len(p.Ops) > 0 {
+		k := (p.CloseOp1 - 1) % len(p.Ops)
+		p.CloseAt = p.Ops[k].At + p.CloseDelay
+	}
 	lastAt := 0
 	for _, o := range p.Ops {
 		if o.At > lastAt {
@@ -922,7 +936,7 @@ func (p *Plan) Run(tr *Trace) {
 	// operations on the closed instance
 	if p.Close != nil && p.closers[0].done.Load() && p.closers[1].done.Load() {
 		for i, o := range p.PostOps {
-			p.startOp(tr, len(p.Ops)+i, o)
+			p.startOp(tr, PostBase+i, o)
 			for k := 0; k < 200 && !o.done.Load(); k++ {
 				p.settle()
 				if o.done.Load() {
@@ -935,7 +949,7 @@ func (p *Plan) Run(tr *Trace) {
 				}
 			}
 			p.settle()
-			p.harvest(tr, len(p.Ops), p.PostOps)
+			p.harvest(tr, PostBase, p.PostOps)
 		}
 	}
 	p.Steps = step
@@ -960,7 +974,7 @@ func (p *Plan) Run(tr *Trace) {
 	}
 	Disarm()
 	p.harvest(tr, 0, p.Ops)
-	p.harvest(tr, len(p.Ops), p.PostOps)
+	p.harvest(tr, PostBase, p.PostOps)
 	for _, o := range append(append([]*Op(nil), p.Ops...), p.PostOps...) {
 		if o.started && !o.done.Load() {
 			p.Hung = append(p.Hung, o.Name)
@@ -1103,4 +1117,22 @@ func CloseClass(closeAt int) string {
 		return "mid"
 	}
 	return "late"
+}
+
+// One property, several Go packages: a case is identified across the runs by
+// run*RunStride + index, so that a replay (VERIF_ONLY) reaches exactly one run.
+const RunStride = 100000
+
+func CaseID(run, i int) int { return run*RunStride + i }
+
+// Only translates VERIF_ONLY for one run: -1 = run everything, -2 = the replayed case
+// belongs to another run (run nothing), else the index of the case within this run.
+func Only(run, only int) int {
+	if only < 0 {
+		return -1
+	}
+	if only/RunStride != run {
+		return -2
+	}
+	return only % RunStride
 }
